@@ -372,7 +372,7 @@ MANIFEST_ENTRY = dict(
           'normalize, softmax, isclose, from_pairs) and on sample (support inclusion, one-point shortcut, frame: only the supplied generator), '
           'for dict / uniform / deterministic / softmax / table-backed distributions, discharged by z3 for ALL probabilities (incl. 0, '
           'unnormalised) over supports of <=3 (quick) / 4 (thorough) mixed hashable events and every collision pattern of projections.'),
-    note='Bounded support size (tier B); log/exp through the LogVal abstraction; sampling law not decided (demonic generator).',
+    note='Bounded support size (tier B); log/exp through the LogVal abstraction; sampling law not decided (demonic generator). Tier U: expectation, marginalize, mixture over abstract distributions of any length.',
 )
 END_MANIFEST_ENTRY = True
 
